@@ -442,6 +442,82 @@ fn gen_edns() -> Option<u16> {
     }
 }
 
+/// The connection limit binds: `max` + 0..3 connections that just sit there,
+/// opened a few milliseconds apart, all closed again after a while (or closed
+/// by the server's idle timer); then a client that must be served - it tries
+/// up to five times, a second apart, and waits 20 s for its answer each time.
+async fn crowd_then_late_client(listener: SimListener, max: usize, accept_at_max: bool, idle_timeout_ms: u64) {
+    let planner: Arc<dyn Fn(usize) -> ConnectPlan + Send + Sync> = Arc::new(|_| ConnectPlan::default());
+    let c = listener.connector(addr(70, 6100), planner.clone());
+    sim::sleep_ms(sim::draw("crowd.start_ms", 20)).await;
+    let n = max + sim::draw("crowd.extra", 4) as usize;
+    let mut held = Vec::new();
+    for _ in 0..n {
+        if let Ok(s) = c.connect_sim().await {
+            held.push(s);
+        }
+        sim::sleep_ms(sim::draw("crowd.gap_ms", 4)).await;
+    }
+    let hold_ms = *sim::pick("crowd.hold_ms", &[50u64, 500, 1500, 6000]);
+    sim::sleep_ms(hold_ms).await;
+    // Some leave in an orderly way, one after the other; or all at once.
+    if sim::chance("crowd.leave_one_by_one", 1, 2) {
+        while let Some(s) = held.pop() {
+            drop(s);
+            sim::sleep_ms(sim::draw("crowd.leave_gap_ms", 10)).await;
+        }
+    } else {
+        held.clear();
+    }
+    ev!("the crowd of {} connections (limit {}, accept at the limit: {}, held {} ms, idle timeout {} ms) is gone", n, max, accept_at_max, hold_ms, idle_timeout_ms);
+    sim::sleep_ms(*sim::pick("crowd.then_ms", &[1u64, 50, 5000])).await;
+    let late = listener.connector(addr(71, 6200), planner);
+    let ask = Ask { k: 900_000, n: 1, s: 20, m: 1, d: 0, e: 0, p: 0, o: 0 };
+    for attempt in 0..5u16 {
+        let id = 0x7100 + attempt;
+        let mut mb = MessageBuilder::new_vec();
+        mb.header_mut().set_id(id);
+        let mut q = mb.question();
+        q.push((Name::<Vec<u8>>::from_chars(format!("{}.svc.", ask.label()).chars()).unwrap(), Rtype::TXT)).unwrap();
+        let req = q.into_message().into_octets();
+        let answered = async {
+            let mut s = late.connect_sim().await.ok()?;
+            s.write_all(&dns::frame(&req)).await.ok()?;
+            let mut len = [0u8; 2];
+            s.read_exact(&mut len).await.ok()?;
+            let mut body = vec![0u8; u16::from_be_bytes(len) as usize];
+            s.read_exact(&mut body).await.ok()?;
+            Some(body)
+        };
+        let got = tokio::time::timeout(Duration::from_secs(20), answered).await;
+        sim::sync_clock();
+        match got {
+            Ok(Some(body)) => {
+                let ok = dns::parse(&body).is_some_and(|p| p.id == id && p.qr && p.qname.as_deref().is_some_and(|q| q.starts_with(&ask.label())));
+                if !ok {
+                    sim::violation(P, "attribution", "late-client-got-something-else", format!("the client that came after the crowd got {} octets that are not the answer to its request id={:#x}", body.len(), id));
+                }
+                ev!("late client served at attempt {}", attempt + 1);
+                sim::stat("probe.client_served_after_the_crowd_left");
+                return;
+            }
+            Ok(None) => {
+                ev!("late client: attempt {} turned away", attempt + 1);
+            }
+            Err(_) => {
+                ev!("late client: attempt {} unanswered for 20 s", attempt + 1);
+            }
+        }
+        sim::sleep_ms(1000).await;
+    }
+    sim::violation(
+        P,
+        "liveness",
+        format!("stream-server-serves-nobody-after-the-connection-limit-was-reached/accept-at-max-{}", accept_at_max),
+        format!("{} connections (limit {}) were opened and closed again; a client that came afterwards tried five times, a second apart, and waited 20 s each time: no answer", n, max),
+    );
+}
+
 // ------------------------------------------------------------------ hostile
 
 fn hostile_payload() -> (Vec<u8>, &'static str) {
@@ -1056,6 +1132,17 @@ async fn run(_tier: Tier) {
     if conn_limit > 0 {
         scfg.set_max_concurrent_connections(conn_limit);
     }
+    // One run in six the limit does bind: a crowd of connections that just
+    // sit there takes every slot (and more), leaves again, and a client that
+    // comes afterwards must be served. No other stream clients in such a
+    // run (a connection turned away at the limit is the configured policy).
+    let limit_binds = sim::chance("cfg.conn_limit_binds", 1, 6);
+    let accept_at_max = sim::chance("cfg.accept_connections_at_max", 1, 2);
+    if limit_binds {
+        sim::stat("probe.connection_limit_binds");
+        scfg.set_max_concurrent_connections(1 + sim::draw("cfg.conn_limit_small", 3) as usize);
+        scfg.set_accept_connections_at_max(accept_at_max);
+    }
 
     let dgram_limit_log: Arc<std::sync::Mutex<Vec<(u64, Option<u16>)>>> = Arc::new(std::sync::Mutex::new(vec![(0, max_response_size)]));
     macro_rules! start {
@@ -1087,7 +1174,7 @@ async fn run(_tier: Tier) {
             // The stream server is shut down mid-run: what the service had
             // produced by then is still written ("pending responses will be
             // written as long as the client side remains operational").
-            if sim::chance("cfg.shutdown", 1, 6) {
+            if !limit_binds && sim::chance("cfg.shutdown", 1, 6) {
                 let at = 1 + sim::draw("cfg.shutdown_at_ms", 160);
                 let s4 = ssrv.clone();
                 tokio::spawn(async move {
@@ -1140,7 +1227,7 @@ async fn run(_tier: Tier) {
 
     let exec = Exec::new();
     let n_udp = sim::draw("n_udp_clients", 4) as usize;
-    let n_tcp = sim::draw("n_tcp_clients", 4) as usize;
+    let n_tcp = if limit_binds { 0 } else { sim::draw("n_tcp_clients", 4) as usize };
     let junk: Rc<RefCell<Vec<Vec<u8>>>> = Rc::new(RefCell::new(Vec::new()));
     let mut k = 1u32;
     for c in 0..n_udp {
@@ -1153,7 +1240,11 @@ async fn run(_tier: Tier) {
         exec.spawn(format!("tcp{}", c), stream_client(exec.clone(), led.clone(), listener.clone(), 50 + c, conns, k, knobs, hostile));
         k += 40;
     }
-    if sim::chance("setup_failer", 1, 3) {
+    if limit_binds {
+        let max = scfg.max_concurrent_connections();
+        exec.spawn("crowd-then-late-client".to_string(), crowd_then_late_client(listener.clone(), max, accept_at_max, knobs.idle_timeout_ms));
+    }
+    if !limit_binds && sim::chance("setup_failer", 1, 3) {
         // Connections whose server-side set-up fails (a failed handshake),
         // spread over the run.
         let n = 1 + sim::draw("setup_failer.n", 14);
